@@ -15,6 +15,13 @@ Streams
            (b) property oracle (from the statement, independent of the model) on the real output.
            (c) multiplicity on the real code: one PageNode per titled Markdown file, no two files written
                to the same PagetreePage.outfile.
+  project: every tree runs in one of several PROJECT CONFIGURATIONS (round 4): media_dir absent / called
+           `media` / called anything else / nested, with files at several depths; output_dir `doc`, nested, or
+           called `page` / `media`.  One real `ford.main` run per configuration supplies the aliases (as main
+           builds them) and the copied media directory (as Documentation.writeout leaves it); pages link to
+           media files with `|media|` (links and images), to their own assets, to the rest of the
+           documentation with `|url|`.  Oracle: every such link resolves to the intended file AND that file
+           exists with the content of its source; the navigation bar of every page leads to the top page.
   e2e    : a few complete `ford.main` runs (page dir handling inside main / Documentation),
            project-level copy_subdir and absolute project_url probes; oracle only.
 """
@@ -53,6 +60,116 @@ DIR_NAMES = ["sub", "img", "d1", "d2", "media", "Sub", "x1", "deep"]
 OTHER_NAMES = ["data.txt", "img.png", "README", "plot.svg", "Makefile", "a.mdx", "notes.markdown", "b.MD"]
 HIDDEN_NAMES = [".hidden", ".hid.md", "x.md~", "old.txt~", ".git"]
 HIDDEN_DIRS = [".cache", "bak~"]
+
+# project configurations: where the media directory is (any name is allowed for `media_dir`; it is always
+# placed at <output>/media), what is in it, and where the output goes
+MEDIA_DIR_NAMES = ["media", "figures", "images", "img", "assets/media", "media/img", "Media", "media2",
+                   "doc-media", "static/figs", "page"]
+OUTPUT_DIRS = ["doc", "doc", "out/html", "page", "media", "docs/api", "doc/media"]
+MEDIA_FILE_POOL = ["x.png", "logo.png", "fig/y.svg", "data/table.csv", "fig/deep/z.png", "media/m.png",
+                   "page/p.png", "index.html", "notes.txt", "figures/f.svg"]
+URL_TARGETS = ["index.html", "lists/modules.html", "module/foo.html"]  # files every run of the test project writes
+# user-defined aliases of the project file (`alias: name = text`); "three aliases are pre-defined": a project
+# that also defines one of these names itself still gets the documented meaning of |page| |media| |url|
+USER_ALIASES = ["docs = https://example.org/docs", "media = https://example.org/elsewhere", "page = ../wiki",
+                "url = https://example.org", "Media = x"]
+DEFAULT_CFG = {"media_dir": None, "media_files": [], "output_dir": "doc", "alias": []}
+
+
+def media_bytes(rel):
+    return b"media " + rel.encode() + b"\n\x89PNG\xff\x00\x81\n"
+
+
+def cfg_ok(cfg):
+    md, od = cfg["media_dir"], cfg["output_dir"]
+    tops = {"src", "pages"}
+    if od.split("/")[0] in tops:
+        return False
+    if md is None:
+        return True
+    # the output directory is removed at the start of every run: the media directory is not inside it (nor around it)
+    return md.split("/")[0] not in tops | {od.split("/")[0]}
+
+
+def gen_configs(rng, n):
+    """the first is the plain project (no media_dir), the second calls it `media`, the third anything but
+    `media`; the others are drawn freely"""
+    cfgs = [dict(DEFAULT_CFG)]
+    while len(cfgs) < n:
+        k = len(cfgs)
+        if k == 1:
+            md = "media"
+        elif k == 2:
+            md = rng.choice([m for m in MEDIA_DIR_NAMES if m.split("/")[-1] != "media"])
+        elif k == 3:
+            md = rng.choice([m for m in MEDIA_DIR_NAMES if "/" in m])
+        else:
+            md = rng.choice(MEDIA_DIR_NAMES + [None])
+        files = sorted(rng.sample(MEDIA_FILE_POOL, rng.randint(1, 5))) if md else []
+        od = "doc" if k == 1 else rng.choice([o for o in OUTPUT_DIRS if k % 2 or o != "doc"])
+        al = []
+        if k >= 3 and (k == 4 or rng.random() < 0.4):
+            al = sorted(rng.sample(USER_ALIASES, rng.randint(1, 2)))
+        cfg = {"media_dir": md, "media_files": files, "output_dir": od, "alias": al}
+        if cfg_ok(cfg) and not any(c["media_dir"] == md and c["output_dir"] == od for c in cfgs):
+            cfgs.append(cfg)
+    return cfgs
+
+
+def cfg_options(cfg):
+    o = {"output_dir": "./" + cfg["output_dir"]}
+    if cfg["media_dir"] is not None:
+        o["media_dir"] = "./" + cfg["media_dir"]
+    if cfg.get("alias"):
+        o["alias"] = list(cfg["alias"])
+    return o
+
+
+def write_media(root: Path, cfg):
+    if cfg["media_dir"] is None:
+        return
+    base = root / cfg["media_dir"]
+    shutil.rmtree(base, ignore_errors=True)
+    base.mkdir(parents=True)
+    for rel in cfg["media_files"]:
+        (base / rel).parent.mkdir(parents=True, exist_ok=True)
+        (base / rel).write_bytes(media_bytes(rel))
+
+
+def media_entries(files):
+    """the media directory as an abstract directory (for the model)"""
+    top: dict = {}
+    for rel in files:
+        d = top
+        parts = rel.split("/")
+        for x in parts[:-1]:
+            d = d.setdefault(x, {})
+        d[parts[-1]] = None
+
+    def conv(d):
+        return [{"k": "D", "name": k, "ch": conv(v)} if isinstance(v, dict) else
+                {"k": "F", "name": k, "meta": None, "style": 0} for k, v in d.items()]
+    return conv(top)
+
+
+def cfg_label(cfg):
+    md = cfg["media_dir"]
+    kind = "none" if md is None else ("named-media" if md == "media" else
+                                      ("nested-basename-media" if md.endswith("/media") else "other-name"))
+    return f"media_dir-{kind}"
+
+
+def media_oracle(cfg, out: Path):
+    """`media_dir`: "This will be placed at the root of your documentation file-tree, with the name 'media'"
+    (whatever the directory itself is called).  List of failures."""
+    fails = []
+    for rel in cfg["media_files"]:
+        f = out / "media" / rel
+        if not f.is_file():
+            fails.append(f"media file {rel} of media_dir ./{cfg['media_dir']} is not at <output>/media/{rel}")
+        elif f.read_bytes() != media_bytes(rel):
+            fails.append(f"<output>/media/{rel} differs from its source in ./{cfg['media_dir']}")
+    return fails
 
 # project encodings and, for each, text that can be written in it.  For every encoding other than
 # utf-8 the encoded text is NOT valid UTF-8 (checked below), so "read with the wrong encoding" is an
@@ -333,12 +450,18 @@ def spec_preorder(node):
     return out
 
 
-def add_links(rng, ch, feat, top_spec, loc=()):
-    """give the pages links to each other (|page| alias and plain relative links), to media and url"""
+def is_image(rest):
+    return rest.endswith((".png", ".svg"))
+
+
+def add_links(rng, ch, feat, top_spec, loc=(), cfg=DEFAULT_CFG):
+    """give the pages links to each other (|page| alias and plain relative links), to media files (links and
+    images), to the rest of the documentation (|url|) and to the other files of their own directory"""
     targets = [n["path"] for n in spec_preorder(top_spec)] if top_spec else ["index.html"]
+    assets = [e["name"] for e in ch if e["k"] == "F" and not is_md(e["name"]) and not is_hidden(e["name"])]
     for e in ch:
         if e["k"] == "D":
-            add_links(rng, e["ch"], feat, top_spec, loc + (e["name"],))
+            add_links(rng, e["ch"], feat, top_spec, loc + (e["name"],), cfg)
             continue
         m = e["meta"]
         if m is None or not is_md(e["name"]):
@@ -351,11 +474,21 @@ def add_links(rng, ch, feat, top_spec, loc=()):
                 m["links"].append(("page", "/" + t))
                 feat.add("link-page-alias")
             elif r < 0.5:
-                m["links"].append(("media", "/" + rng.choice(["x.png", "fig/y.svg"])))
+                if cfg["media_files"] and rng.random() < 0.85:
+                    mf = rng.choice(cfg["media_files"])
+                    feat.add("link-media-alias-existing-file")
+                else:
+                    mf = rng.choice(["x.png", "fig/y.svg", "nothere.pdf"])
+                m["links"].append(("media", "/" + mf))
                 feat.add("link-media-alias")
+                if is_image(mf):
+                    feat.add("image-media-alias")
             elif r < 0.6:
-                m["links"].append(("url", "/" + rng.choice(["index.html", "lists/modules.html", "module/foo.html"])))
+                m["links"].append(("url", "/" + rng.choice(URL_TARGETS)))
                 feat.add("link-url-alias")
+            elif r < 0.67 and assets:
+                m["links"].append(("", rng.choice(assets)))
+                feat.add("link-relative-own-asset")
             elif r < 0.95:
                 rel = os.path.relpath("/" + t, "/" + "/".join(loc)) if loc else t
                 m["links"].append(("", rel))
@@ -368,7 +501,13 @@ def add_links(rng, ch, feat, top_spec, loc=()):
             feat.add("link-entity")
 
 
-def gen_tree(rng, k, feat):
+def gen_tree(rng, k, feat, cfgs=(DEFAULT_CFG,)):
+    """-> (directory, project encoding, index of the project configuration it runs in)"""
+    ci = rng.randrange(len(cfgs))
+    feat.add(cfg_label(cfgs[ci]))
+    if any(a.split(" = ")[0] in ("page", "media", "url") for a in cfgs[ci].get("alias", [])):
+        feat.add("user-alias-named-like-a-predefined-one")
+    feat.add("output_dir-" + cfgs[ci]["output_dir"])
     counter = [0]
     maxdepth = rng.choice([1, 2, 2, 3, 3, 4])
     ch = gen_dir(rng, 0, maxdepth, counter, force_index=(rng.random() < 0.95))
@@ -377,8 +516,8 @@ def gen_tree(rng, k, feat):
     encode_tree(rng, ch, enc, feat)
     deeper = all_dir_names(ch, set())
     decorate(rng, ch, feat, deeper, p_dangling=0.02, enc=enc)
-    add_links(rng, ch, feat, spec_tree(ch, enc=enc))
-    return ch, enc
+    add_links(rng, ch, feat, spec_tree(ch, enc=enc), cfg=cfgs[ci])
+    return ch, enc, ci
 
 
 # ---- writing it to disk ----
@@ -401,7 +540,8 @@ def md_text(e):
         lines = lines + meta_extra
     body = ["BODYSTART", ""]
     if m["links"]:
-        body.append(" ".join(f"[l{i}]({('|' + a + '|') if a else ''}{r})" for i, (a, r) in enumerate(m["links"])))
+        body.append(" ".join(f"{'!' if is_image(r) else ''}[l{i}]({('|' + a + '|') if a else ''}{r})"
+                             for i, (a, r) in enumerate(m["links"])))
         body.append("")
     body += ["BODYEND", ""]
     if m.get("na"):
@@ -459,12 +599,13 @@ class Impl:
     """One real `ford.main` run on a minimal project; its MetaMarkdown (aliases as built by main),
     project and Documentation.data are captured and reused for the direct runs."""
 
-    def __init__(self, ford, root: Path):
+    def __init__(self, ford, root: Path, cfg=None):
         import ford.output
         import ford.pagetree
 
         self.ford = ford
         self.root = root
+        self.cfg = cfg = dict(cfg or DEFAULT_CFG)
         self.pages = root / "pages"
         cap = {}
         orig_gpt = ford.get_page_tree
@@ -480,7 +621,8 @@ class Impl:
                 cap["docs"] = s
 
         pf = e2e.write_project(root, {"a.f90": "module foo\nend module foo\n"},
-                               pages={"index.md": "title: Top\n\nhello\n"})
+                               pages={"index.md": "title: Top\n\nhello\n"}, options=cfg_options(cfg))
+        write_media(root, cfg)
         ford.get_page_tree = wrap
         ford.output.Documentation = Doc
         try:
@@ -494,6 +636,11 @@ class Impl:
         self.page_dir, self.proj_copy, self.out, self.md = a[0], a[1], Path(a[2]), a[3]
         self.encoding = k.get("encoding", "utf-8")
         self.docs = cap["docs"]
+        # the names of the entity pages ([[foo]] -> module/foo.html) are handed out by a process-wide
+        # NameSelector that every ford.main run replaces: each captured project keeps the one of its own run
+        import ford.sourceform as sf
+
+        self.namelist = sf.namelist
         self.get_page_tree = ford.pagetree.get_page_tree
         self.PagetreePage = ford.output.PagetreePage
         self.out = Path(os.path.realpath(self.out))
@@ -530,6 +677,9 @@ class Impl:
         (self.out / "page").mkdir(parents=True)
         write_tree(self.pages, ch)
         obs = {"status": "ok", "nodes": [], "pages": {}, "out": [], "log": ""}
+        import ford.sourceform as sf
+
+        sf.namelist = self.namelist
         with common.quiet() as buf:
             try:
                 with self.recording_sources():
@@ -600,7 +750,19 @@ def read_page(f: Path):
     if i >= 0 and j4 > i:
         na = t[i + len("NASTART"):j4].strip()
     return {"nav": nav, "crumbs": crumbs, "body": body, "entity": ent, "has_sidebar": 'id="sidebar-toc"' in t,
-            "na": na}
+            "na": na, "top": read_navbar(t)}
+
+
+BRAND_RE = re.compile(r'<a class="navbar-brand" href="([^"]*)"')
+
+
+def read_navbar(t: str):
+    """hrefs of the fixed navigation bar at the top of every page: the project link, then the entries
+    (static pages first)"""
+    i = t.find('id="navbar"')
+    j = t.find("</ul>", i) if i >= 0 else -1
+    items = HREF_RE.findall(t[i:j]) if j > i >= 0 else []
+    return BRAND_RE.findall(t[:i if i >= 0 else len(t)])[:1] + items
 
 
 def list_out(root: Path):
@@ -627,9 +789,9 @@ def parse_model(resp):
         return s.split(RS) if s else []
 
     for f in resp[1:k]:
-        path, title, hier, files, copy, nav, crumbs, body = f.split(US)
+        path, title, hier, files, copy, nav, crumbs, body, topnav = f.split(US)
         nodes.append([path, title, lst(hier), lst(files), lst(copy)])
-        pages[path] = {"nav": lst(nav), "crumbs": lst(crumbs), "body": lst(body)}
+        pages[path] = {"nav": lst(nav), "crumbs": lst(crumbs), "body": lst(body), "topnav": topnav}
     return {"status": "ok", "nodes": nodes, "pages": pages, "out": sorted(resp[k + 1:])}
 
 
@@ -655,6 +817,9 @@ def compare(im, mo):
         for key in ("nav", "crumbs", "body"):
             if pg[key] != mp[key]:
                 return f"page {p} {key}: impl {pg[key]} model {mp[key]}"
+        # the entry of the navigation bar that follows the project link is the link to the top page
+        if pg["top"][1:2] != [mp["topnav"]]:
+            return f"page {p} navigation bar: impl {pg['top'][:3]} model top-page link {mp['topnav']}"
     return None
 
 
@@ -664,8 +829,32 @@ def compare(im, mo):
 
 def resolve_href(page_rel: str, href: str) -> str:
     """where a browser goes from <out>/page/<page_rel> following href; result relative to <out>"""
-    u = urljoin("http://h/page/" + page_rel, href)
+    return resolve_from("page/" + page_rel, href)
+
+
+def resolve_from(file_rel: str, href: str) -> str:
+    """where a browser goes from <out>/<file_rel> following href; result relative to <out>"""
+    u = urljoin("http://h/" + file_rel, href)
     return u[len("http://h/"):] if u.startswith("http://h/") else u
+
+
+def navbar_fails(file_rel: str, top: list, out: Path, want_pages: bool = True):
+    """the fixed navigation bar of <out>/<file_rel>: exactly one entry leads to the top static page (a file that
+    exists), and the project link leads to the front page.  (Where the other entries - source files, lists -
+    lead is not part of this property; in the per-tree runs their names also depend on process-wide state.)"""
+    fails = []
+    if not top:
+        return [f"{file_rel} has no navigation bar"]
+    got = [resolve_from(file_rel, h) for h in top]
+    if want_pages and got[1:].count("page/index.html") != 1:
+        fails.append(f"navigation bar of {file_rel}: entries {top[1:]} resolve to {got[1:]}, expected exactly one "
+                     f"to be the top static page page/index.html")
+    if got[0] != "index.html":
+        fails.append(f"navigation bar of {file_rel}: project link {top[0]} resolves to {got[0]}, expected index.html")
+    for h, g in zip(top, got):
+        if (g == "index.html" or g.startswith("page/")) and not (out / g).is_file():
+            fails.append(f"navigation bar of {file_rel}: {h} resolves to {g}, which is not a file of the documentation")
+    return fails
 
 
 def link_target(node, alias, rest):
@@ -712,8 +901,9 @@ def defect_classes(ch, enc=UTF8):
     return {k: v for k, v in cls.items() if v}
 
 
-def oracle(ch, im, src_root: Path, out: Path, enc=UTF8):
-    """List of (why, finding id or None).  Empty = the property holds on this input."""
+def oracle(ch, im, src_root: Path, out: Path, enc=UTF8, cfg=DEFAULT_CFG):
+    """List of (why, finding id or None).  Empty = the property holds on this input.
+    `cfg` = the project configuration the pages were built in (media directory, output directory)."""
     fails = []
     exp = spec_tree(ch, enc=enc)
     classes = defect_classes(ch, enc)
@@ -823,6 +1013,19 @@ def oracle(ch, im, src_root: Path, out: Path, enc=UTF8):
                 elif resolve_href(n["path"], h) != t:
                     fails.append((f"link {'|' + a + '|' if a else ''}{r} on {n['path']} resolves to "
                                   f"{resolve_href(n['path'], h)}, expected {t}", None))
+                else:
+                    # ... and the aliased place is where that part of the documentation really is: the file
+                    # of the media directory, the page of the rest of the documentation
+                    rel = r.lstrip("/")
+                    if a == "media" and rel in cfg["media_files"]:
+                        f = out / "media" / rel
+                        if not f.is_file() or f.read_bytes() != media_bytes(rel):
+                            fails.append((f"link |media|{r} on {n['path']} resolves to {t}, but the file {rel} of the "
+                                          f"media directory ./{cfg['media_dir']} is not there", None))
+                    elif a == "url" and rel in URL_TARGETS and not (out / rel).is_file():
+                        fails.append((f"link |url|{r} on {n['path']} resolves to {t}, which does not exist", None))
+        for w in navbar_fails("page/" + n["path"], pg.get("top") or [], out):
+            fails.append((w, None))
         if n.get("na") is not None and pg.get("na") != n["na"]:
             fails.append((f"text {n['na']!r} of {'/'.join(n['src'])} (project encoding {enc}) appears as "
                           f"{pg.get('na')!r} on {n['path']}", None))
@@ -1011,12 +1214,16 @@ def written_in(ch, prefix=""):
     return out
 
 
-def e2e_run(root: Path, ch, options=None, enc=UTF8):
+def e2e_run(root: Path, ch, options=None, enc=UTF8, cfg=None):
     shutil.rmtree(root, ignore_errors=True)
     if enc != UTF8:
         options = dict(options or {}, encoding=enc)
+    if cfg is not None:
+        options = dict(options or {}, **cfg_options(cfg))
     pf = e2e.write_project(root, {"a.f90": "module foo\nend module foo\n"}, pages={"index.md": "placeholder"},
                            options=options)
+    if cfg is not None:
+        write_media(root, cfg)
     # the page files are written in their own encodings (and empty directories exist)
     shutil.rmtree(root / "pages", ignore_errors=True)
     write_tree(root / "pages", ch)
@@ -1039,19 +1246,33 @@ def e2e_run(root: Path, ch, options=None, enc=UTF8):
     return obs, out
 
 
-def e2e_stream(rng, n, rep, scratch: Path, direct_impl, feats_hist):
+def e2e_stream(rng, n, rep, scratch: Path, impls, feats_hist):
     """full ford.main runs: the output below <out>/page and every page's links must equal what the
     direct path (captured objects) produced for the same directory, and the oracle must hold"""
     n_fail = 0
     for k in range(n):
         feat = set()
-        ch, enc = gen_tree(rng, k, feat)
+        ch, enc, ci = gen_tree(rng, k, feat, [im.cfg for im in impls])
+        direct_impl, cfg = impls[ci], impls[ci].cfg
         for f in feat:
-            if f.startswith("encoding-"):
+            if f.startswith("encoding-") or f.startswith("media_dir-"):
                 feats_hist["e2e-" + f] = feats_hist.get("e2e-" + f, 0) + 1
         d_obs = direct_impl.run(ch, enc)
-        d_fails = oracle(ch, d_obs, direct_impl.pages, direct_impl.out, enc)
-        obs, out = e2e_run(scratch / "e2e", ch, enc=enc)
+        d_fails = oracle(ch, d_obs, direct_impl.pages, direct_impl.out, enc, cfg)
+        obs, out = e2e_run(scratch / "e2e", ch, enc=enc, cfg=cfg)
+        if obs["status"] in ("ok", "none"):
+            # the complete run: the media directory is at <output>/media, and the pages outside the page tree
+            # lead to the top static page as well
+            why = media_oracle(cfg, out)
+            if obs["status"] == "ok":
+                for f in ("index.html", "module/foo.html"):
+                    if (out / f).is_file():
+                        why += navbar_fails(f, read_navbar((out / f).read_text(errors="replace")), out)
+                    else:
+                        why.append(f"{f} was not written")
+            if why:
+                rep.failing_input({"stream": "e2e", "tree": ch, "encoding": enc, "config": cfg,
+                                   "files": pages_dict(ch), "why": why[:6]}, None)
         if obs["status"] != d_obs["status"] or (obs["status"] == "ok" and obs["out"] != d_obs["out"]):
             rep.tie_broken(f"e2e: ford.main and get_page_tree+PagetreePage differ on tree {k}: "
                            f"{obs['status']} / {d_obs['status']}",
@@ -1063,14 +1284,16 @@ def e2e_stream(rng, n, rep, scratch: Path, direct_impl, feats_hist):
                 want = sorted(n["path"] for n in spec_preorder(exp)) if exp else []
                 got = sorted(x for x in obs.get("out", []) if x.endswith(".html"))
                 if obs["status"] in ("ok", "none") and got != want:
-                    rep.failing_input({"stream": "e2e", "tree": ch, "encoding": enc, "files": pages_dict(ch),
+                    rep.failing_input({"stream": "e2e", "tree": ch, "encoding": enc, "config": cfg,
+                                       "files": pages_dict(ch),
                                        "why": f"complete ford run (encoding: {enc}) wrote pages {got}, expected {want}"},
                                       None)
             continue
         if obs["status"] == "ok":
             for p in d_obs["pages"]:
                 if not (out / "page" / p).is_file() or d_obs["pages"][p] is None:
-                    rep.failing_input({"stream": "e2e", "tree": ch, "encoding": enc, "files": pages_dict(ch),
+                    rep.failing_input({"stream": "e2e", "tree": ch, "encoding": enc, "config": cfg,
+                                       "files": pages_dict(ch),
                                        "why": f"page {p} of the page tree is not written to <output>/page/{p}"}, None)
                     break
                 a = read_page(out / "page" / p)
@@ -1079,12 +1302,14 @@ def e2e_stream(rng, n, rep, scratch: Path, direct_impl, feats_hist):
                 #  intervening ford.main runs reset; it is checked against the intended target instead)
                 ent = a.pop("entity")
                 b.pop("entity")
+                # (likewise the entries of the navigation bar after the top-page link name source-file pages)
+                a["top"], b["top"] = a["top"][:2], b["top"][:2]
                 if ent is not None and [resolve_href(p, h) for h in ent] != ["module/foo.html"]:
                     rep.failing_input({"stream": "e2e", "files": pages_dict(ch),
                                        "why": f"[[foo]] on page {p} resolves to {ent}"}, None)
                 if a != b:
                     rep.tie_broken(f"e2e: page {p} differs between ford.main and direct run on tree {k}",
-                                   {"stream": "e2e", "tree": ch, "encoding": enc, "main": a, "direct": b})
+                                   {"stream": "e2e", "tree": ch, "encoding": enc, "config": cfg, "main": a, "direct": b})
                     break
     return n_fail
 
@@ -1215,6 +1440,7 @@ def run(tier: str, seed: int, replay: str | None = None) -> int:
     n_micro = 1500 if tier == "quick" else 20000
     n_tree = 700 if tier == "quick" else 12000
     n_e2e = 12 if tier == "quick" else 150
+    n_cfg = 6 if tier == "quick" else 14
     ev_micro, bad_micro = micro(ford, drv, rng, n_micro, rep)
 
     feats_hist: dict[str, int] = {}
@@ -1230,9 +1456,7 @@ def run(tier: str, seed: int, replay: str | None = None) -> int:
             "trees_with_a_name_listed_twice_and_found": 0}
     with common.scratch_dir() as d:
         d = Path(os.path.realpath(d))
-        impl = Impl(ford, d / "proj")
-        variant = decide_variant(impl)
-        cwd = os.getcwd()
+        cfgs = gen_configs(random.Random(seed * 104729 + 5), n_cfg)
         trees = []
         if replay:
             import json
@@ -1240,21 +1464,43 @@ def run(tier: str, seed: int, replay: str | None = None) -> int:
             rp = json.loads(Path(replay).read_text())
             for c in rp.get("cases", []) + rp.get("first_disagreements", []):
                 if "tree" in c and isinstance(c["tree"], list):
-                    trees.append((c["tree"], {"replay"}, c.get("encoding") or UTF8))
+                    cfg = c.get("config") or DEFAULT_CFG
+                    cfg = {k2: cfg.get(k2, DEFAULT_CFG[k2]) for k2 in DEFAULT_CFG}
+                    if cfg not in cfgs:
+                        cfgs.append(cfg)
+                    trees.append((c["tree"], {"replay"}, c.get("encoding") or UTF8, cfgs.index(cfg)))
+        # one real ford.main run per project configuration: the aliases as main builds them, the media
+        # directory as Documentation.writeout leaves it
+        impls = [Impl(ford, d / f"proj{i}", cfg) for i, cfg in enumerate(cfgs)]
+        impl = impls[0]
+        variant = decide_variant(impl)
+        cwd = os.getcwd()
+        media_model = drv.batch([["c17.media", "1" if c["media_dir"] is not None else "0",
+                                  *tokens(media_entries(c["media_files"]))] for c in cfgs])
+        for im_, cfg, mm in zip(impls, cfgs, media_model):
+            real = ["media/"] + ["media/" + x for x in list_out(im_.out / "media")] if (im_.out / "media").is_dir() else []
+            if mm[0] != "ok" or sorted(mm[1:]) != sorted(real):
+                rep.tie_broken(f"correspondence media directory: <output>/media after Documentation.writeout is "
+                               f"{sorted(real)}, model {sorted(mm[1:])}",
+                               {"stream": "media", "config": cfg, "impl": sorted(real), "model": mm})
+            why = media_oracle(cfg, im_.out)
+            if why:
+                rep.failing_input({"stream": "media", "config": cfg, "why": why[:6],
+                                   "observed_output_top": sorted(os.listdir(im_.out))}, None)
         # the witnesses of the known findings are always replayed
         for w in (WITNESS_MISSING, WITNESS_GRANDPARENT, WITNESS_DOTTED, WITNESS_COLLIDE, WITNESS_COLLIDE2,
                   WITNESS_LISTED_TWICE):
-            trees.append((w, {"witness"}, UTF8))
+            trees.append((w, {"witness"}, UTF8, 0))
         for k in range(n_tree):
             feat: set[str] = set()
-            ch, enc = gen_tree(rng, k, feat)
-            trees.append((ch, feat, enc))
-        reqs = [["c17.tree", variant, str(impl.out), cwd, enc, *tokens(ch)] for ch, _, enc in trees]
+            ch, enc, ci = gen_tree(rng, k, feat, cfgs)
+            trees.append((ch, feat, enc, ci))
+        reqs = [["c17.tree", variant, str(impls[ci].out), cwd, enc, *tokens(ch)] for ch, _, enc, ci in trees]
         model = drv.batch(reqs)
         # the oracle's reading of the statement (spec_tree, Python) and the specification the theorems
         # are stated against (expPages, Lean) must agree on every generated directory
-        lean_spec = drv.batch([["c17.spec", enc, *tokens(ch)] for ch, _, enc in trees])
-        for (ch, _, enc), ls in zip(trees, lean_spec):
+        lean_spec = drv.batch([["c17.spec", enc, *tokens(ch)] for ch, _, enc, _ in trees])
+        for (ch, _, enc, _), ls in zip(trees, lean_spec):
             st = spec_tree(ch, enc=enc)
             mine = sorted(n["path"] for n in spec_preorder(st)) if st else []
             if ls[0] != "ok" or sorted(ls[1:]) != mine:
@@ -1262,12 +1508,12 @@ def run(tier: str, seed: int, replay: str | None = None) -> int:
                                {"stream": "spec", "files": pages_dict(ch), "encoding": enc, "lean": ls[1:], "oracle": mine})
                 break
 
-        def check_one(ch, enc):
-            im = impl.run(ch, enc)
-            return im, oracle(ch, im, impl.pages, impl.out, enc)
+        def check_one(ch, enc, ci=0):
+            im = impls[ci].run(ch, enc)
+            return im, oracle(ch, im, impls[ci].pages, impls[ci].out, enc, cfgs[ci])
 
-        for k, ((ch, feat, enc), mo_raw) in enumerate(zip(trees, model)):
-            im, fails = check_one(ch, enc)
+        for k, ((ch, feat, enc, ci), mo_raw) in enumerate(zip(trees, model)):
+            im, fails = check_one(ch, enc, ci)
             mo = parse_model(mo_raw)
             wr = im.get("written", [])
             mult["pages_with_source_checked"] += len(wr)
@@ -1291,7 +1537,8 @@ def run(tier: str, seed: int, replay: str | None = None) -> int:
             if diff is not None:
                 n_bad_corr += 1
                 rep.tie_broken(f"correspondence tree (variant {variant}): {diff}",
-                               {"stream": "tree", "tree": ch, "encoding": enc, "files": pages_dict(ch), "diff": diff,
+                               {"stream": "tree", "tree": ch, "encoding": enc, "config": cfgs[ci],
+                                "files": pages_dict(ch), "diff": diff,
                                 "impl": {x: im.get(x) for x in ("status", "abort", "nodes", "out")},
                                 "model": {x: mo.get(x) for x in ("status", "abort", "nodes", "out")}})
             if fails:
@@ -1304,6 +1551,7 @@ def run(tier: str, seed: int, replay: str | None = None) -> int:
                     fid = ids[0]
                     for other in ids[1:]:
                         rep.failing_input({"stream": "tree", "files": pages_dict(ch), "encoding": enc,
+                                           "config": cfgs[ci],
                                            "why": [f[0] for f in fails if f[1] == other][:6]}, other)
                     fails = [f for f in fails if f[1] == fid]
                 case_tree = ch
@@ -1311,12 +1559,14 @@ def run(tier: str, seed: int, replay: str | None = None) -> int:
                     n_shrunk += 1
                     # shrink unlisted failures to a small replay
                     def still(c):
-                        _, fl = check_one(c, enc)
+                        _, fl = check_one(c, enc, ci)
                         return any(x[1] is None for x in fl)
                     case_tree = shrink(ch, still)
-                    im2, fails2 = check_one(case_tree, enc)
+                    im2, fails2 = check_one(case_tree, enc, ci)
                     fails = fails2 or fails
                 rep.failing_input({"stream": "tree", "tree": case_tree, "encoding": enc,
+                                   "config": cfgs[ci],
+                                   "project_options": cfg_options(cfgs[ci]),
                                    "files": pages_dict(case_tree),
                                    "files_written_in": written_in(case_tree),
                                    "why": [f[0] for f in fails][:6],
@@ -1324,7 +1574,7 @@ def run(tier: str, seed: int, replay: str | None = None) -> int:
                                    "expected_pages": [n["path"] for n in spec_preorder(spec_tree(case_tree, enc=enc))] if spec_tree(case_tree, enc=enc) else None,
                                    "observed_pages": [n[0] for n in im.get("nodes", [])] if case_tree is ch else None},
                                   fid)
-        e2e_stream(rng, n_e2e, rep, d, impl, feats_hist)
+        e2e_stream(rng, n_e2e, rep, d, impls, feats_hist)
         probe_results = probes(rep, d)
     drv.close()
     rep.coverage.update(
@@ -1343,6 +1593,7 @@ def run(tier: str, seed: int, replay: str | None = None) -> int:
         status_histogram=status_hist,
         e2e_runs=n_e2e,
         multiplicity=mult,
+        project_configurations=cfgs,
         probes=probe_results,
         generated_tables=_tables(tr),
     )
@@ -1355,5 +1606,7 @@ def run(tier: str, seed: int, replay: str | None = None) -> int:
         "ordered_subpage / copy_subdir items are plain names (no '/' or '..'; C19 covers escaping paths); "
         "copy_subdir on a non-index page only names directories that do not become pages",
         "file contents of copied assets are compared on the implementation side only",
+        "the media directory is copied once per project configuration by a complete ford.main run (and again in every "
+        "e2e run); the per-tree runs reuse that output directory and rebuild only <output>/page",
     ]
     return rep.finish(lean)
